@@ -775,7 +775,13 @@ pub fn dom_tree_atomic(scenario: &str) -> Outcome {
             Err(_) => format!("Err then {}", snapshot(&doc)),
         }
     });
-    let expected = if observed.starts_with("Err") { format!("Err then {}", before) } else { observed.clone() };
+    let expected = if observed.starts_with("Err") {
+        format!("Err then {}", before)
+    } else if observed.starts_with("PANIC") {
+        "no panic".to_string()
+    } else {
+        observed.clone()
+    };
     Outcome { observed, expected, note: "a refused mutator must leave the serialization and every order key unchanged".into() }
 }
 
